@@ -370,6 +370,18 @@ def constructors(ctx, F):
                         % (meaning, fmtb(gm), gmw, fmtb(mb), want_mw, fmtb(gb), fmtb(bb_)), b.span)
         except OutOfFragment as e:
             ctx.undecided('C16.R2', site, 'OUT-OF-FRAGMENT: %s' % e, b.span)
+    # scaling(s): the bias has one entry per scalar -- zeros(len(s)) in any spelling of the length of the 1-D parameter
+    b = ctx.body('C16.R2', 'AffFuncBase::scaling')
+    if b is not None:
+        R, ret = kernel_return_soft(F, b)
+        okl = False
+        if is_call(ret, 'AffFuncBase::from_mats') and is_call(ret[2][1], 'ArrayBase::zeros'):
+            ln = s(shape_of(ret[2][1][2][0]))     # a length read off the matrix it belongs to (rows of from_diag(s)) is the length of s
+            SC = ('param', 'scalars')
+            okl = ln in (('index', ('call', 'ArrayBase::shape', (SC,)), ('const', 0)), ('call', 'ArrayBase::len', (SC,)), ('call', 'ArrayBase::nrows', (SC,)),
+                         ('call', 'ArrayBase::dim', (SC,)), ('call', 'ArrayBase::len_of', (SC, ('agg', ('adt', 'Axis', 'Axis', ('0',)), (('const', 0),)))),
+                         ('call', 'ArrayBase::raw_dim', (SC,)))
+        (ctx.ok if okl else ctx.bad)('C16.R2', 'AffFuncBase::scaling#bias-length', 'bias = zeros(number of scalars)' if okl else 'the bias of scaling(s) is not zeros(len(s))', b.span)
     # uniform_scaling(dim, s) = scaling(from_elem(dim, s))
     b = ctx.body('C16.R2', 'AffFuncBase::uniform_scaling')
     if b is not None:
